@@ -6,8 +6,14 @@ ID = 'C08'
 GENERATORS = ['gen_undo']
 COQ_TARGETS = ['Props/C08.vo', 'Run/RunC08.vo']
 PROPS_MODULE = 'Props.C08'
-THEOREMS = ['interleaving_sound', 'history_sound', 'undo_all_redo_all', 'undo_k_restores', 'redo_k_restores', 'new_edit_clears_redo',
-            'atomic_group_sound', 'nested_guard_folds', 'push_action_sound', 'push_plain_sound']
+THEOREMS = [# (1) framework: any document type, any operations, any equivalence
+            'interleaving_sound', 'history_sound', 'undo_all_redo_all', 'undo_k_restores', 'redo_k_restores', 'new_edit_clears_redo',
+            'atomic_group_sound', 'nested_guard_folds', 'push_action_sound', 'push_plain_sound',
+            # (2) the modelled operations of the (fixed) tree
+            'eqv_observable', 'undo_operations_sound', 'layer_change_sound', 'area_op_sound', 'area_mutations_stay_inside', 'api_sound',
+            'undo_redo_history', 'undo_all_redo_all_modelled',
+            # (3) the code before the fix commits refuted the statement
+            'layerchange_drops_hidden_refuted', 'setchar_alpha_locked_refuted', 'swap_loses_char_refuted']
 SWEEP_LEMMAS = []
 TRUSTED = ['Coq 8.16.1 kernel + vm_compute (model evaluation); no axioms (Print Assumptions: closed)',
            'translator/gen_undo.py + vlib/rustsrc.py: guard-expression translator and the statement templates that pin Layer::set_char/'
@@ -16,11 +22,26 @@ TRUSTED = ['Coq 8.16.1 kernel + vm_compute (model evaluation); no axioms (Print 
            'hand-written Model/EditModel.v and Model/EditOps.v, tied to src/editor/*.rs and src/layer.rs by the differential runs of stage C '
            '(raw `lines` of every layer after every step)',
            'harness/src/c08.rs (snapshot comparer, history runner, minimiser) and props/c08.py (classification of failures)']
-UNMODELLED = []
+UNMODELLED = ['per-operation soundness is NOT proved (stages C/S only, the oracle of stage S runs them on the real code) for: merge_layer_down, '
+              'resize_buffer(resize_layer = true) / crop / crop_rect, add_selection_to_mask, inverse_selection, insert/delete row and column, '
+              'scroll_area_*, rotate_layer, make_layer_transparent, stamp_layer_down, paste_clipboard_data / anchor_layer, set_ice_mode, '
+              'set_palette_mode, switch_to_font_page, set/add/remove font, change_font_slot, replace_font_usage, the *_line / erase_row/column wrappers',
+              'palette, fonts, SAUCE data, ice/palette/font modes are not part of the Coq document (no modelled operation touches them); '
+              'they are compared by the stage S oracle',
+              'the selection mask (add_selection_to_mask / inverse_selection are unmodelled, so the mask is empty in the modelled histories)',
+              'undo/redo while an AtomicUndoGuard is still open; push_reverse_undo / undo_caret_position (no public caller can build the operations)']
 ASSUMPTIONS = ['no i32 overflow in coordinate arithmetic (the model computes in Z)',
                'layers carry no sixels / hyperlinks / preview offset and default_font_page = 0 (true for every document the checks build)',
                'an operation that reports Err or panics is not part of the history (the oracle restarts the history without it)']
-RULE = ''
+RULE = ('a case is one history: a document (buffer 6x4 .. 80x25; 1..3 layers with full/ragged/empty rows, offsets incl. negative, visible/hidden/locked/'
+        'position-locked/alpha-locked/has-alpha flags, optional SAUCE record) and a sequence of public editing operations with in-range and boundary '
+        'parameters (plus the controls caret / current layer / mirror mode). Stage S: a fixed list of directed histories (all repaired defects and '
+        'known classes), every history of length 1 and 2 (thorough: also 3) over a fixed alphabet of 70 parameterised operations, and seeded random '
+        'histories of length <= 40; operations that do not report Ok are dropped with a restart; the oracle undoes everything (comparing after every '
+        'step with the snapshot recorded when the undo stack had that length), redoes everything, walks randomly over undo/redo incl. the no-op ends, '
+        'and checks that an edit after undos empties the redo stack. Stage C: documents with explicit raw rows (incl. content outside `size`) and '
+        'histories of the modelled operations interleaved with undo/redo; model and implementation are compared on the raw `lines` of every layer '
+        'after every step, histories that stop at a failing operation are re-run without it. Non-trivial = at least two operations applied.')
 
 CODE = {1: 'undo-err', 2: 'undo-panic', 3: 'undo-mismatch', 4: 'redo-err', 5: 'redo-panic', 6: 'redo-mismatch', 7: 'stack-length',
         8: 'redo-survives-edit', 9: 'silent-change', 10: 'walk-mismatch', 11: 'walk-err'}
@@ -324,6 +345,22 @@ def replay(ctx, body):
         v = r[1]; print('  %s at step %d' % (CODE.get(v[0], v[0]), v[1]))
     return 0 if good else 1
 
-LEVEL_TEXT = ''
-LEVEL_NOTE = ''
-TECHNIQUE = ''
+LEVEL_TEXT = ('Machine-checked proof (Coq, closed under the global context), PARTIAL by design. (1) Framework, fully general: for ANY document '
+              'type, undo-operation type (payloads may be re-captured), and observational equivalence, a model of push_undo_action / push_plain_undo / '
+              'nested AtomicUndoGuard folding / undo / redo with a zipper invariant; theorems history_sound and interleaving_sound: after any sequence '
+              'of sound edits, EVERY interleaving of undo and redo steps succeeds and lands on the entry of one fixed timeline the walk points at '
+              '(k undos = k steps back, k redos = k steps forward), undo_all_redo_all, new_edit_clears_redo, atomic groups (nested) are sound. '
+              '(2) Per-operation soundness and the composed theorem undo_redo_history for set_char (incl. mirror mode), swap_char, add/remove/raise/'
+              'lower/duplicate/clear layer, toggle visibility, move layer, set layer size, resize buffer, selection set/clear/deselect, erase selection, '
+              'and ALL snapshot-frame area operations at once (area_op_sound: any mutation that stays inside the area; instantiated for justify '
+              'left/right, center, flip x/y), on the tree with six small fix commits (UndoLayerChange, UndoSetChar on alpha-locked layers, swap_char, '
+              'stale current layer, center, whole-layer scroll); equivalence = every stored cell incl. content hidden outside the layer size. '
+              '(3) Everything else (merge, crop/resize with layers, row/column, scroll area, rotate, transparent, stamp, paste/anchor, mask selection, '
+              'ice/palette/font operations) is NOT proved: covered by the differential stage and by the oracle on the real code; five known defect '
+              'classes there are listed as known findings.')
+LEVEL_NOTE = ('Trusted: Coq kernel + vm_compute; translator/gen_undo.py (guard expressions of Layer::set_char/restore_char/can_set_char/get_char and '
+              'AtomicUndoGuard::drop are translated, the statement skeletons of the layer primitives and of the undo machinery in editor/mod.rs are '
+              'pinned token for token); the hand-written operation model, tied by differential traces on raw layer content after every step; '
+              'the stage S oracle and its classification of failing minimised histories into known classes. Model arithmetic is in Z (no i32 overflow).')
+TECHNIQUE = ('Coq proof: greatest-fixpoint soundness relation for undo records (explicit invariant pair), zipper invariant by induction over the '
+             'interleaving, observational congruence of every layer primitive; translator tie for guards; differential traces; oracle on the real code')
